@@ -138,6 +138,30 @@ def directed(name, quick):
                         P.add(m, PB.W(3, 4), ref=hs[0], rt='FB')
                     P.act('Apply', m)
                     out.append(P.steps)
+    if name == 'twinops':
+        # equal-valued operations (same kind, same qubit, no relation of their own) at the top level and at the head of a nested
+        # block, an explicit relation to the top-level one, then the circuit is copied / nested -- with and without the listing
+        # having been read before
+        import itertools
+        for kind, route, obs, rt in itertools.product(('Rx180', 'Hadamard', 'Wait'), ('CopyCirc', 'AddSub'), (None, 'full', 'ops', 'plot'), ('FB', 'JS')):
+            mk = (lambda q: PB.W(q, 4)) if kind == 'Wait' else (lambda q: PB.leaf(kind, [q], [[q, 'MICROWAVE']], ['global', 'MW']))
+            P = PB.Prog()
+            m = P.new()
+            a = P.add(m, mk(0))
+            sub = P.new()
+            P.add(sub, mk(0))
+            P.add(sub, PB.M(0))
+            P.add_sub(m, sub)
+            P.add(m, PB.leaf('Ry90', [1], [[1, 'MICROWAVE']], ['global', 'MW']), ref=a, rt=rt)
+            if obs:
+                P._step(a='Obs', c=m, what=obs)
+            if route == 'CopyCirc':
+                P.copy(m)
+            else:
+                outer = P.new()
+                P.add(outer, PB.W(2, 2))
+                P.add_sub(outer, m)
+            out.append(P.steps)
     if name == 'acqdir':
         # measurements before / inside / after a repeated block; the indices are read at some point of the build, then the
         # block is unrolled (already indexed measurements move) and the indices are read again
@@ -189,12 +213,12 @@ def directed(name, quick):
 SOURCES = {
     'C01': ('flat', 'nest', 'chan', 'deep', 'unroll2', 'unroll3', 'sim', 'repotests', 'library'),
     'C02': ('flat', 'nest', 'chan', 'deep', 'obsnest', 'sim', 'repotests', 'library'),
-    'C04': ('flat', 'nest', 'sim', 'repotests'),
-    'C05': ('kinds', 'copyapplied', 'nest', 'sim'),
+    'C04': ('flat', 'nest', 'nest0', 'sim', 'repotests'),
+    'C05': ('kinds', 'copyapplied', 'twinops', 'nest', 'sim'),
     'C06': ('unroll', 'unroll2', 'unroll3', 'nest', 'sim', 'library'),
     'C07': ('acq', 'acqdir', 'sim'),
     'C11': ('flatten', 'flatdir', 'sim', 'library'),
-    'C03': ('hist', 'plothist', 'acq', 'acqdir', 'obsnest', 'sim'),
+    'C03': ('hist', 'plothist', 'acq', 'acqdir', 'twinops', 'obsnest', 'sim'),
     'C08': ('kinds', 'export', 'sim', 'library'),
     'C18': ('drawkinds', 'drawhist', 'drawnest'),
     'C15': ('kinds', 'export', 'qldir'),
@@ -233,6 +257,12 @@ def programs_for(pid, tier, seed):
       reps=[('fixed', 1), ('fixed', 2)], acts=('NewCircuit', 'AddOp', 'AddSub', 'Apply', 'Obs'), obskinds=('full', 'ops'), linktypes=(), max_circs=2, max_objs=8,
       max_steps=6 if quick else 7, workers=8, min_emit=5, timeout=120, cap=1500 if quick else 20000,
       keep=lambda p: any(s['a'] == 'Obs' and any(t['a'] in ('AddSub', 'Apply') for t in p[i + 1:]) for i, s in enumerate(p)))
+    # (2a'') like (2), with a block whose repetition count evaluates to 0 (the library builds such blocks itself): it still spans
+    #        what it contains
+    g('nest0', [gen.leaf('Wait', [0], [[0, 'ALL']], ['fixed', 4]), gen.leaf('Wait', [1], [[1, 'ALL']], ['fixed', 12])],
+      reps=[('fixed', 1), ('fixed', 0)], acts=('NewCircuit', 'AddOp', 'AddSub'), linktypes=('FB', 'JE'),
+      max_circs=2, max_objs=7, max_steps=6, cap=800 if quick else 6000, one_in=10 if quick else 2, workers=4, min_emit=4,
+      keep=lambda p: any(s['a'] == 'AddSub' for s in p))
     # (2b) exhaustive, implicit rule across nesting: one qubit, every channel kind, no explicit relation; a sub-circuit's
     #      channels are what its operations occupy (ALL bridges the specific channels)
     one = [gen.leaf('Wait', [0], [[0, ch]], ['fixed', 4]) for ch in ('ALL', 'MICROWAVE', 'FLUX')] + meas((0,), tags=('',))
@@ -292,7 +322,7 @@ M_Init == /\\ heap = DoNewCircuit(DoAddOp(DoNewCircuit(<<>>, "n1", NoLink, <<"fi
       reps=[('fixed', 2), ('fixed', 3)], acts=('NewCircuit', 'AddOp', 'AddSub', 'Apply'), linktypes=(), max_circs=2, max_objs=8,
       max_steps=6 if quick else 7, workers=8, min_emit=6, timeout=120, cap=1500 if quick else 20000,
       keep=lambda p: p[-1]['a'] == 'Apply' and any(s['a'] == 'AddSub' for s in p))
-    for dn in ('flatdir', 'copyapplied', 'qldir', 'acqdir', 'unroll3'):
+    for dn in ('flatdir', 'copyapplied', 'qldir', 'acqdir', 'unroll3', 'twinops'):
         if dn in want:
             out.append({'name': dn, 'programs': directed(dn, quick), 'generated': 0, 'tlc_states': 0, 'tlc_generated': 0, 'mode': 'directed family (python)'})
             out[-1]['generated'] = len(out[-1]['programs'])
